@@ -221,6 +221,8 @@ def _class_tail(L, spec, c, uid, ps, req):
         elif isinstance(sav, dict) and 'fill' in sav:
             # make omitted attributes explicit (the classic use of set_attribute)
             L.append('        if node.is_mapping():')
+            if not sav['fill']:
+                L.append('            pass')
             for name, value in sav['fill']:
                 L.append('            if not node.has_attribute({!r}):'.format(name))
                 L.append('                node.set_attribute({!r}, {})'.format(name, _lit(value)))
